@@ -1093,12 +1093,13 @@ def run_history(args):
 
     try:
         sys.setrecursionlimit(3000)
-        signal.signal(signal.SIGALRM, on_alarm)
-        signal.setitimer(signal.ITIMER_REAL, HISTORY_BUDGET_S, 0.5)
+        # user-CPU time, not wall-clock: a loaded machine must not turn into a verdict (DESIGN 2.6)
+        signal.signal(signal.SIGVTALRM, on_alarm)
+        signal.setitimer(signal.ITIMER_VIRTUAL, HISTORY_BUDGET_S, 0.5)
         try:
             return run_history1(args)
         finally:
-            signal.setitimer(signal.ITIMER_REAL, 0)
+            signal.setitimer(signal.ITIMER_VIRTUAL, 0)
     except BaseException as e:  # noqa: BLE001
         hseed, nops, quick, subject, fixed_ops = args
         case = {"subject": subject, "init": ["n", []], "ops": [], "hseed": hseed, "nops": nops, "regenerate": fixed_ops is None}
@@ -1356,7 +1357,7 @@ def main(R):
     R.step_prove()
     ok = R.step_driver()
     _imports()
-    nh, nops = (1200, 22) if R.quick else (6000, 50)
+    nh, nops = (1200, 22) if R.quick else (4000, 50)
     jobs = [(R.rng.getrandbits(48), nops if R.rng.random() < 0.8 else R.rng.randint(3, nops), R.quick, "td", None) for _ in range(nh)]
     # corpus first
     cdir = os.path.join(os.path.dirname(os.path.dirname(os.path.abspath(__file__))), "corpus", PID)
@@ -1366,9 +1367,9 @@ def main(R):
             if f.endswith(".json"):
                 cj = json.load(open(os.path.join(cdir, f)))
                 corpus.append((0, 0, R.quick, cj.get("subject", "td"), cj))
-    nl = 150 if R.quick else 1500
+    nl = 150 if R.quick else 800
     jobs += [(R.rng.getrandbits(48), 16, R.quick, "lazy", None) for _ in range(nl)]
-    jobs += [(R.rng.getrandbits(48), 16, R.quick, "tc", None) for _ in range(100 if R.quick else 1000)]
+    jobs += [(R.rng.getrandbits(48), 16, R.quick, "tc", None) for _ in range(100 if R.quick else 500)]
     jobs = corpus + jobs
     import multiprocessing as mp
     ctx = mp.get_context("fork")
@@ -1426,7 +1427,7 @@ def main(R):
                 batch = []
             # histories that cannot even be observed (time budget, escaped exceptions) are failures by themselves;
             # once there are many, the verdict is settled and the remaining budget is not spent on them
-            if unobservable >= 24 or (R.quick and time.time() - t0 > 150):
+            if unobservable >= 24 or (time.time() - t0 > (150 if R.quick else 1500)):
                 R.extra["stopped_early"] = f"{done} of {len(jobs)} histories run ({unobservable} not observable)"
                 pool.terminate()
                 break
